@@ -124,6 +124,21 @@ def observe(enc, c):
     out += [enc.z(b[0]), enc.z(b[1]), 1 if bool(c) else 0, len(c), c.num_units]
     if c.num_annotators != len(c):
         bad = "num_annotators differs from len"
+    # derived counts and statistics must be those of the unit lists just observed (which are compared with the model)
+    sizes = [len(per[a]) for a in anns]
+    if int(c.max_num_annotations_per_annotator) != (max(sizes) if sizes else 0):
+        bad = "max_num_annotations_per_annotator is not the largest number of units of an annotator"
+    if anns and abs(c.avg_num_annotations_per_annotator - sum(sizes) / len(anns)) > 1e-12:
+        bad = "avg_num_annotations_per_annotator is not units / annotators"
+    if sum(sizes):
+        mean = sum(u.segment.end - u.segment.start for a in anns for u in per[a]) / sum(sizes)
+        if abs(c.avg_length_unit - mean) > 1e-9 * max(1.0, abs(mean)):
+            bad = "avg_length_unit is not the mean duration of the units"
+        labelled = [u.annotation for a in anns for u in per[a] if u.annotation is not None]
+        if len(labelled) == sum(sizes):      # (on continua with unlabelled units the property is not defined: None and str keys do not compare)
+            w = c.category_weights
+            if list(w.keys()) != sorted(set(labelled)) or any(abs(w[k] - labelled.count(k) / len(labelled)) > 1e-12 for k in w):
+                bad = "category_weights are not the relative frequencies of the labels"
     return out, bad
 
 
